@@ -361,3 +361,16 @@ package main
 //@     invariant matchedItem == nil ==> (forall k string :: $visited[k] ==> !routeMatch(k, dest))
 //@     invariant matchedItem != nil ==> has(pcr.items, matchedItem.dest) && pcr.items[matchedItem.dest] == matchedItem && routeMatch(matchedItem.dest, dest)
 //@     invariant matchedItem != nil ==> (forall k string :: $visited[k] && routeMatch(k, dest) ==> matchedItem.dest <= k)
+
+// ---- header-name comparison (C17) ----
+// The compact-name table is written only by the package initialiser; every other function may assume it.
+//@ global-invariant compact-table: compactHdrNames != nil && (forall k string :: has(compactHdrNames.compactHeaders, k) == isCompactKey(k)) && (forall k string :: isCompactKey(k) ==> compactHdrNames.compactHeaders[k] == compactOf(k))
+
+//@ func init@message.go
+//@   props C17
+//@   ensures compactHdrNames != nil && (forall k string :: has(compactHdrNames.compactHeaders, k) == isCompactKey(k)) && (forall k string :: isCompactKey(k) ==> compactHdrNames.compactHeaders[k] == compactOf(k))
+
+//@ func (*Message).isSameHeader
+//@   props C17 C01 C02 C06 C13
+//@   modifies nothing
+//@   ensures result == (canonName(name_1) == canonName(name_2))
